@@ -429,7 +429,7 @@ PROPS['C01'] = dict(level='proof', lemmas=['verus/lemmas.rs'], functions=[
     explanation='Each element-wise operation of the real code is verified, from every representation-invariant state (symbolic len <= cap), against the witness form of Vec\'s semantics; histories follow by induction (Verus lemma history_refines).')
 PROPS['C02'] = dict(level='proof', lemmas=['verus/lemmas.rs'], functions=['AnyVec::{drain,splice}', 'ops::drain::Drain::{new,drop}', 'ops::splice::Splice::{new,drop}', 'iter::Iter cursor', 'utils::{move_elements_at,drop_elements_range,element_mut_ptr_at}'],
     explanation='drain/splice contracts from every state, every range, every consumption state (f front, b back).')
-PROPS['C03'] = dict(level='proof', lemmas=['verus/lemmas.rs'], functions=['every K2 contract (ownership accounting at the witness)'], explanation='destroyed + handed out + visible == 1 for every value, in every operation contract.')
+PROPS['C03'] = dict(level='proof', lemmas=['verus/lemmas.rs'], functions=['every K2 contract (ownership accounting at the witness)'], explanation='destroyed + handed out + visible == 1 for every value, in every operation contract. Holds for every history in which no element handle yielded by the type-erased drain/splice is used after its iterator was dropped; that history (safe code) breaks C03 on the pinned tree and is the open known finding D15 (known_findings.json), reported as KNOWN-FINDING.')
 PROPS['C05'] = dict(level='proof', lemmas=[], functions=['every primitive recorder precondition over the relocating GhostMem'], explanation='every primitive call lies inside the current region.')
 PROPS['C06'] = dict(level='proof', lemmas=[], functions=['panic-view invariant at every call-out'], explanation='panic-view invariant at every call-out; misreporting replacement iterator.')
 PROPS['C07'] = dict(level='proof', lemmas=[], functions=['mem::forget of Pop/Remove/SwapRemove/Drain/Splice'], explanation='forget harnesses.')
